@@ -93,7 +93,20 @@ def run(ctx):
         for cls in ("loss", "ok", "mixed", "ok"):
             if by[cls] and len(pick) < budget:
                 pick.append(by[cls].pop())
-    chosen = short + pick
+    # recovery scenarios: the last operation repairs what its prefix alone would lose (the model loses the final
+    # content after the prefix and loads it after the whole scenario): always replayed, they exercise the
+    # code's ways of catching up (resolved-path comparison after a swap, a later write, a re-creation)
+    recov = []
+    for k in keys:
+        h = pred[k]["hist"]
+        if len(h) >= 2 and pred[k]["pred"] == "ok":
+            pk = (k[0], key(h[:-1]))
+            if pk in pred and pred[pk]["pred"] == "loss":
+                recov.append(k)
+    rnd.shuffle(recov)
+    recov = [k for k in recov if k not in short][:ctx.pick(24, 200)]
+    ctx.set("recovery_scenarios_replayed", len(recov))
+    chosen = short + [k for k in pick if k not in recov] + recov
     cases = []
     for k in chosen:
         p = pred[k]
@@ -145,7 +158,7 @@ def run(ctx):
             ["%.1f-%.1f" % (x["s"] / 1000.0, x["e"] / 1000.0) for x in o["ops"]],
             ["%.1f:%s" % (s["t"] / 1000.0, s["content"]) for s in o["signals"]], o["final"], o["loaded"]))
     for o, b in bad:
-        rec = {"class": b["class"], "layout": o["layout"],
+        rec = {"class": b["class"], "layout": o["layout"], "model_predicts": o["pred"],
                "scenario": " ".join("%s%s@%d" % (x["op"], "(slow)" if x.get("slow") else "", x["gap"]) for x in o["ops"])}
         ctx.violation(rec, "the real ConfWatcher lost the final content (%s): %s; observation window %.1f s after the last "
                            "operation, no later signal" % (b["class"], show(o), (o["obsEnd"] - o["ops"][-1]["e"]) / 1e6))
